@@ -30,7 +30,8 @@ KB = 64.0        # multiples of the running rounding-error bound that numpy may 
 
 NEEDED = ["Model/Consts", "Model/Effects", "Model/MetricIR", "Model/MetricEval", "Gen/Consts_gen", "Gen/Decorator_gen",
           "Gen/Metrics_gen", "Gen/Registry_gen", "Proofs/MetricLemmas", "Proofs/ClosedForms", "Proofs/Resolved",
-          "Proofs/RegistryOk", "Props/C06"]
+          "Proofs/RegistryOk", "Props/C06",
+          "Model/MetricRdepth", "Proofs/RoundingBounds", "Proofs/RdepthSound", "Proofs/RdepthTable", "Proofs/RdepthWitness"]
 
 MODEL_CTORS = [
     ("SupervisedOPF", {}),
@@ -433,6 +434,9 @@ def main(tier, seed):
         "the EPSILON shift is exact over the reals; in binary64 x + 1e-20 == x for |x| > 1e-4",
         "`mask[i] is True` inside @njit is a boolean test (hassanat); validated here by mixed-sign inputs",
     ]
+    # ---- quantitative rounding bounds (Props/C06_rounding.v) on the real functions
+    import c06_rounding
+    c06_rounding.run(rep, D, tier, seed)
     return rep.finish()
 
 
@@ -455,6 +459,9 @@ def replay(path):
         print("replay: %s x=%r y=%r closed form=%r got=%r -> %s" % (name, x, y, float(q[1]), got if got is not None else note,
                                                                      "agree" if ok else "DIFFER"))
         return 0 if ok else 1
+    if r["kind"] == "rounding":
+        import c06_rounding
+        return c06_rounding.replay(r, dist.DISTANCES)
     if r["kind"] == "registry":
         import opfython.models as models
         import opfython.utils.exception as oe
